@@ -47,9 +47,9 @@ theorem mainP_syntaxOnly (env : PEnv) (orc : EvalOracles) (ok : Bool) (conf : Li
 conditions are evaluated under `-d` as they are otherwise, actions are not executed. -/
 def Quiet (hc : Bool) (c : Call) : Prop := c.mutating = false ∧ (c = .fork → hc = true)
 
-theorem quiet_evalP (hc : Bool) (env : Env) (tf : Int → Option Bytes) (e : Expr) (m : Msg) (fl : MFlags)
-    (h : hasCommand e = true → hc = true) : Calls (Quiet hc) (evalP env tf e m fl) := by
-  refine calls_mono' (evalP_calls_of env tf e m fl) fun c hcall => ⟨hcall.evalCall.quiet, fun hf => ?_⟩
+theorem quiet_evalP (hc : Bool) (env : Env) (e : Expr) (m : Msg) (fl : MFlags)
+    (h : hasCommand e = true → hc = true) : Calls (Quiet hc) (evalP env e m fl) := by
+  refine calls_mono' (evalP_calls_of env e m fl) fun c hcall => ⟨hcall.evalCall.quiet, fun hf => ?_⟩
   rcases hcall with ⟨h1, _⟩ | ⟨_, p, hp⟩
   · exact h h1
   · rw [hp] at hf; cases hf
@@ -96,7 +96,7 @@ theorem quiet_processMessage (hc : Bool) (env : PEnv) (orc : EvalOracles) (expr 
     Calls (Quiet hc) (processMessage env orc expr md name st) := by
   unfold processMessage
   simp only [bind_eq, pure_eq, call_bind, hd, if_true]
-  repeat' (first | exact quiet_messageParseP _ _ _ _ _ | exact quiet_evalP hc _ _ _ _ _ he | calls_step)
+  repeat' (first | exact quiet_messageParseP _ _ _ _ _ | exact quiet_evalP hc _ _ _ _ he | calls_step)
 
 theorem quiet_walk (hc : Bool) (env : PEnv) (orc : EvalOracles) (expr : Expr) (hd : env.dryrun = true)
     (he : hasCommand expr = true → hc = true) (fuel : Nat) (md : Maildir) (st : MainSt) :
